@@ -51,6 +51,7 @@ import (
 	"strconv"
 	"strings"
 	"sync"
+	"syscall"
 	"time"
 	"unicode/utf8"
 
@@ -502,6 +503,9 @@ func c38NextAfter(done []int, next int) int {
 func c38Spawn(exe string, r *core.Run, scratch, loop string, from, to int, out, inflight string, onlyReq, startSeq int) (stderr string, exit int, timedOut bool) {
 	ctx, cancel := context.WithTimeout(context.Background(), 8*time.Minute)
 	defer cancel()
+	// Pdeathsig is delivered when the forking THREAD exits: pin this goroutine to its thread for the child's lifetime
+	runtime.LockOSThread()
+	defer runtime.UnlockOSThread()
 	cmd := exec.CommandContext(ctx, exe, "--tier", r.Tier, "--seed", strconv.FormatInt(r.Seed, 10), "--verif", scratch, "C38")
 	cmd.Env = append(os.Environ(),
 		fmt.Sprintf("C38_CHILD=%s:%d:%d:%d:%d", loop, from, to, onlyReq, startSeq),
@@ -509,6 +513,8 @@ func c38Spawn(exe string, r *core.Run, scratch, loop string, from, to int, out, 
 	var eb c38TailBuf
 	cmd.Stdout = io.Discard
 	cmd.Stderr = &eb
+	// a child must not outlive the check process (killed watchdog, interrupted run)
+	cmd.SysProcAttr = &syscall.SysProcAttr{Pdeathsig: syscall.SIGKILL}
 	err := cmd.Run()
 	exit = 0
 	if err != nil {
@@ -1828,7 +1834,6 @@ func c38Keys(m map[string]string) []string {
 	sort.Strings(ks)
 	return ks
 }
-
 
 // c38BulkResults counts the per-element results of a bulk response body.
 func c38BulkResults(body []byte) (ok, failed int, parsed bool) {
